@@ -55,6 +55,13 @@ func (mc *MorxChainSubtable) parseEnd(src []byte, _ int) (int, error) {
 	if mc.length < 12 { // the length includes the header: the reader must advance
 		return 0, fmt.Errorf("invalid morx subtable length: %d", mc.length)
 	}
+	// the ligature list has no count: it runs to the end of the subtable (not of the table)
+	if lig, ok := mc.Data.(MorxSubtableLigature); ok {
+		if err := lig.parseLigaturesIn(src[12:mc.length]); err != nil {
+			return 0, err
+		}
+		mc.Data = lig
+	}
 	return int(mc.length), nil
 }
 
@@ -167,6 +174,11 @@ func (lig *MorxSubtableLigature) parseLigActions(src []byte, _ int) error {
 		}
 	}
 
+	// the action table stops at the next array, which is the component table in practice
+	if lig.ligActionOffset <= lig.componentOffset && int(lig.componentOffset) <= len(src) {
+		src = src[:lig.componentOffset]
+	}
+
 	if L := len(src); L < int(lig.ligActionOffset)+4*int(maxIndex+1) {
 		return fmt.Errorf("EOF: expected length: %d, got %d", lig.ligActionOffset, L)
 	}
@@ -202,7 +214,17 @@ func (lig *MorxSubtableLigature) parseComponents(src []byte, _ int) error {
 	return nil
 }
 
+// The ligature list has no count and the end of the subtable is only known by its parent :
+// the list is read by [MorxChainSubtable.parseEnd], with [parseLigaturesIn]
 func (lig *MorxSubtableLigature) parseLigatures(src []byte, _ int) error {
+	if L := len(src); L < int(lig.ligatureOffset) {
+		return fmt.Errorf("EOF: expected length: %d, got %d", lig.ligatureOffset, L)
+	}
+	return nil
+}
+
+// src is the subtable, without its header
+func (lig *MorxSubtableLigature) parseLigaturesIn(src []byte) error {
 	if L := len(src); L < int(lig.ligatureOffset) {
 		return fmt.Errorf("EOF: expected length: %d, got %d", lig.ligatureOffset, L)
 	}
